@@ -2,6 +2,7 @@ import Proofs.Delta
 import Proofs.DeltaFlat
 import Proofs.DeltaList
 import Proofs.DeltaNested
+import Proofs.DeltaSet
 /-!
 # C08 — bidirectional deltas invert exactly and detect a mismatched base
 
@@ -136,5 +137,16 @@ theorem C08_nested_dict_inverse (cfg : DCfg) (hp : Diff.Plain cfg) (al : Align) 
     (∃ r, subDelta true (buildDelta false true v1 v2 (deepDiff cfg al hashOf v1 v2)) v2
         = .ok { root := r, post := [], errs := 0, raised := none } ∧ pyEq r v1 = true) :=
   nested_bidirectional cfg hp al hashOf v1 v2 j1 j2
+
+/-! ### sets of scalars, end to end -/
+
+/-- **A bidirectional delta of two sets inverts exactly** (members told apart consistently by `==` and by the item hash):
+`t2 - delta` is a set `== t1`, `t1 + delta` a set `== t2`, nothing logged. -/
+theorem C08_set_inverse (cfg : DCfg) (hp : Diff.Plain cfg) (al : Align) (hashOf : PyVal → String) (xs ys : List PyVal) (h : SetDom hashOf xs ys) :
+    (∃ r, applyDelta true (buildDelta false true (.set xs) (.set ys) (deepDiff cfg al hashOf (.set xs) (.set ys))) (.set xs)
+        = { root := .set r, post := [], errs := 0, raised := none } ∧ pyEq (.set r) (.set ys) = true) ∧
+    (∃ r, subDelta true (buildDelta false true (.set xs) (.set ys) (deepDiff cfg al hashOf (.set xs) (.set ys))) (.set ys)
+        = .ok { root := .set r, post := [], errs := 0, raised := none } ∧ pyEq (.set r) (.set xs) = true) :=
+  set_roundtrip cfg hp al hashOf true false true xs ys h
 
 end Delta
